@@ -192,7 +192,7 @@ pub fn plan_is_bounded(cfg: &Cfg, plan: &Plan) -> bool {
     if dm == 0 {
         return true;
     }
-    t * d + 2 * dm + 4 <= t * m
+    t * d + 2 * dm + 2 <= t * (m + 1)
 }
 
 /// Largest single delay that keeps a plan with `drops` drops inside the premise (0 = none).
@@ -201,7 +201,7 @@ pub fn max_bounded_delay(cfg: &Cfg, drops: u32) -> u32 {
     if drops + 1 > m {
         return 0;
     }
-    let room = (t * m).saturating_sub(t * drops).saturating_sub(4);
+    let room = (t * (m + 1)).saturating_sub(t * drops).saturating_sub(2);
     room / 2
 }
 
@@ -364,7 +364,8 @@ impl Shared {
     fn on_eof(&self, side: usize, what: &'static str) {
         let peer = 1 - side;
         let mut o = self.obs.borrow_mut();
-        o.log.ev(format!("{} {what} -> EOF after {} bytes", SIDE_NAME[side], o.read[side]));
+        let got = o.read[side];
+        o.log.ev(format!("{} {what} -> EOF after {got} bytes", SIDE_NAME[side]));
         o.log.tag("eof");
         if !o.closing[peer] {
             o.fail6("EarlyEof", format!("{} saw end-of-file although the peer has not closed its write side", SIDE_NAME[side]));
@@ -382,7 +383,8 @@ impl Shared {
 
     fn on_accepted(&self, side: usize, n: usize) {
         let mut o = self.obs.borrow_mut();
-        o.log.ev(format!("{} write accepted {n} bytes (total {})", SIDE_NAME[side], o.accepted[side] + n as u64));
+        let total = o.accepted[side] + n as u64;
+        o.log.ev(format!("{} write accepted {n} bytes (total {total})", SIDE_NAME[side]));
         o.log.tag("write");
         o.accepted[side] += n as u64;
         if n > 0 {
